@@ -46,6 +46,10 @@ func genAtom(r *rand.Rand, d int) string {
 		return `\B`
 	case 14:
 		return `(?i:fo)`
+	case 15:
+		if os.Getenv("FUZZLONG") != "" {
+			return []string{"(foo|bar|bax|fob)", `\d+`, "abx", `(?:a1|b1|x1|f1|o1|a.|b.|x.|fo)`}[r.Intn(4)]
+		}
 	}
 	if d > 2 {
 		return "c"
@@ -116,6 +120,9 @@ func TestDifferentialCampaign(t *testing.T) {
 		e, _ := meta.Compile(pat)
 		for i := 0; i < 60; i++ {
 			n := rng.Intn(12)
+			if os.Getenv("FUZZLONG") != "" {
+				n = 20 + rng.Intn(60)
+			}
 			b := make([]byte, n)
 			for j := range b {
 				b[j] = alpha[rng.Intn(len(alpha))]
